@@ -16,6 +16,17 @@ func HarnessC14a() {
 		n.Key = append(n.Key, symKey{k})
 		n.Value = append(n.Value, v)
 	}
+	// NILV=1: any subset of the values is an untyped nil; the published layout writes what the
+	// marshaler returns for it (length-prefixed like every other body), it does not special-case it
+	nilMask := 0
+	if verifBoundOr("NILV", 0) == 1 {
+		nilMask = verifChoose("nilvals", 1<<uint(nk))
+		for i := 0; i < nk; i++ {
+			if nilMask&(1<<uint(i)) != 0 {
+				n.Value[i] = nil
+			}
+		}
+	}
 	any := false
 	for i := 0; i <= nk; i++ {
 		if linkPat&(1<<uint(i)) != 0 {
@@ -39,7 +50,13 @@ func HarnessC14a() {
 		// untrimmed all-nil list is never produced by store(); layout still defined: count then empty strings
 		want = refEncodeUntrimmed(ks, vs, links)
 	}
+	if nilMask != 0 {
+		want = refEncodeNilVals(ks, vs, nilMask, links, !any && n.Link != nil)
+	}
 	verifAssert("C14.binary-layout", verifStrEq(string(got), string(want)))
+	if nilMask != 0 {
+		return // (what a nil body decodes to is the unmarshaler's business)
+	}
 
 	// decode side
 	m := &Mast{zeroKey: symKey{}, zeroValue: uint64(0), unmarshal: symUnmarshal}
@@ -72,6 +89,45 @@ func HarnessC14a() {
 		}
 	}
 	verifAssert("C14.decode-is-inverse", same)
+}
+
+// refEncodeNilVals: the published layout with the values in nilMask spelled as the marshaler's "null".
+func refEncodeNilVals(keys, vals []uint64, nilMask int, links []string, untrimmed bool) []byte {
+	var b []byte
+	b = refPutUvarint(b, uint64(len(keys)))
+	for _, k := range keys {
+		b = refPutUvarint(b, 8)
+		var tmp [8]byte
+		verifPutU64(tmp[:], k)
+		b = append(b, tmp[:]...)
+	}
+	b = refPutUvarint(b, uint64(len(vals)))
+	for i, v := range vals {
+		if nilMask&(1<<uint(i)) != 0 {
+			b = refPutUvarint(b, 4)
+			b = append(b, "null"...)
+			continue
+		}
+		b = refPutUvarint(b, 8)
+		var tmp [8]byte
+		verifPutU64(tmp[:], v)
+		b = append(b, tmp[:]...)
+	}
+	any := false
+	for _, l := range links {
+		if l != "" {
+			any = true
+		}
+	}
+	if !any && !untrimmed {
+		return refPutUvarint(b, 0)
+	}
+	b = refPutUvarint(b, uint64(len(links)))
+	for _, l := range links {
+		b = refPutUvarint(b, uint64(len(l)))
+		b = append(b, l...)
+	}
+	return b
 }
 
 func refEncodeUntrimmed(keys, vals []uint64, links []string) []byte {
